@@ -623,3 +623,33 @@ func verifLemmaMaxBodyTight(c *channelInstance, m *Message, chunkSize int, chunk
 //@           sessionSigKeyOK(cert, signature) &&
 //@           uapolicy.sigCheckedLen(signature) == len(s.cfg.Certificate) + len(nonce)
 //@   canary ensures [C22:canary-always-ok] result == nil
+
+// ---------------------------------------------------------------------------
+// C01: the hand-written transport structures round-trip (Encode then Decode gives back every field and
+// consumes exactly the encoded bytes).
+// ---------------------------------------------------------------------------
+//@ func verifRoundTripSequenceHeader
+//@   props C01 C08
+func verifRoundTripSequenceHeader(h *SequenceHeader) {
+	if h == nil {
+		return
+	}
+	b, err := h.Encode()
+	g := new(SequenceHeader)
+	n, derr := g.Decode(b)
+	verifAssert("C01:sequence-header", err == nil && derr == nil && n == 8 && len(b) == 8 &&
+		g.SequenceNumber == h.SequenceNumber && g.RequestID == h.RequestID)
+	verifCanary("C01:canary-fields-swapped", g.SequenceNumber == h.RequestID)
+}
+
+//@ func verifRoundTripSymmetricSecurityHeader
+//@   props C01 C08
+func verifRoundTripSymmetricSecurityHeader(h *SymmetricSecurityHeader) {
+	if h == nil {
+		return
+	}
+	b, err := h.Encode()
+	g := new(SymmetricSecurityHeader)
+	n, derr := g.Decode(b)
+	verifAssert("C01:symmetric-header", err == nil && derr == nil && n == 4 && len(b) == 4 && g.TokenID == h.TokenID && h.Len() == 4)
+}
